@@ -32,6 +32,9 @@ ASSUMPTIONS = [
     "process table are simulated",
     "outstanding unread bytes per pipe are kept below the pipe capacity so "
     "the harness never blocks",
+    "half of the cases run a second capturing watcher (descriptor numbers "
+    "freed by one watcher are reused by the other); some workers ignore the "
+    "stop signal",
     "for a worker that dies or is terminated only the prefix property is "
     "claimed (bytes still in the pipe may be dropped with it)",
 ]
@@ -61,7 +64,19 @@ def execute(case):
           "stdout_stream": {"stream": out}}
     if case.get("stderr", True):
         wc["stderr_stream"] = {"stream": err}
-    hc = {"watchers": [wc], "ops": [], "tape": [],
+    watchers = [wc]
+    if case.get("second"):
+        # a second capturing watcher: descriptors freed by one are reused
+        # by the other
+        wc2 = {"name": "v", "numprocesses": 1, "graceful_timeout": 0.2,
+               "stdout_stream": {"stream": out}}
+        if case.get("stderr", True):
+            wc2["stderr_stream"] = {"stream": err}
+        watchers.append(wc2)
+    hc = {"watchers": watchers, "ops": [],
+          "tape": [{"react": "ignore"} if x else
+                   {"react": "die", "delay": 0.0}
+                   for x in case.get("stubborn") or []],
           "default_beh": {"react": "die", "delay": 0.0}}
     base_fds = len(os.listdir('/proc/self/fd'))
     h = History(hc)
@@ -100,7 +115,7 @@ def execute(case):
                 got = b''.join(d for (p, n, d) in coll.records
                                if p == pid and n == ch)
                 alive = k.state(pid) == 'running' and \
-                    pid in w.eff_live('w')
+                    pid in w.eff_live()
                 want = bytes(data)
                 if got == want:
                     continue
@@ -149,7 +164,7 @@ def execute(case):
             if viols or w.dead:
                 break
             kind = op[0]
-            live = w.eff_live('w')
+            live = w.eff_live()
             if kind == 'w' and live:
                 pid = live[op[1] % len(live)]
                 ch = op[2]
@@ -229,6 +244,7 @@ def execute(case):
             w.drain()
             w.full_check()
             baseline_ok = len(w.eff_live('w')) == 2
+            n_before = len(w.eff_live())
             fds_before = daemon_fds()
             for g in range(case["generations"]):
                 for pid in w.eff_live('w'):
@@ -242,6 +258,7 @@ def execute(case):
             fds_after = daemon_fds()
             classes.add('generations')
             if baseline_ok and len(w.eff_live('w')) == 2 and \
+                    len(w.eff_live()) == n_before and \
                     fds_after > fds_before:
                 viols.append(Violation(
                     'C17:fd-leak', 'open descriptors went from %d to %d over '
@@ -284,7 +301,17 @@ def _strategy():
         st.tuples(st.just('req'), st.just('restart'),
                   st.just({"name": "w", "match": "simple"})).map(list),
         st.tuples(st.just('adv'), st.sampled_from([0.05, 0.3])).map(list))
+    second = st.one_of(
+        st.tuples(st.just('req'), st.sampled_from(['incr', 'decr', 'kill']),
+                  st.just({"name": "v"})).map(list),
+        st.tuples(st.just('req'), st.just('restart'),
+                  st.just({"name": "v", "match": "simple"})).map(list),
+        st.tuples(st.just('req'), st.just('kill'),
+                  st.just({"name": "w"})).map(list))
+    op = st.one_of(op, op, op, second)
     return st.fixed_dictionaries({
+        "second": st.booleans(),
+        "stubborn": st.lists(st.booleans(), max_size=6),
         "np": st.integers(1, 4),
         "stderr": st.sampled_from([True, True, False]),
         "ops": st.lists(op, min_size=1, max_size=40),
